@@ -50,7 +50,44 @@ def gen_solver_consts() -> str:
     want = "reason is not None and options.extras and isinstance(metadata.origin, SourceRepository)"
     if conds != [want]:
         raise T.TranslateError(f"compile-wide extras are applied under another condition than `{want}`: {conds}")
+    # the safety net at the end of perform_compile, inside the try whose handler attaches the results:
+    #   retried = set()
+    #   while True:
+    #       pending = [node for node in sorted(results.visit_nodes(roots)) if node.metadata is None and node not in retried]
+    #       if not pending: break
+    #       retried.add(pending[0]); compile_roots(pending[0], None, repo, results, options, max_downgrade=<literal>)
+    #   for node in sorted(results.visit_nodes(roots)):
+    #       if node.metadata is None: raise NoCandidateException(node.build_constraints())
+    tries = [n for n in f.body if isinstance(n, ast.Try)]
+    if len(tries) != 1:
+        raise T.TranslateError("perform_compile: expected exactly one try statement")
+    tb = tries[0].body
+    kinds = [type(n).__name__ for n in tb]
+    if kinds != ["For", "AnnAssign", "While", "For"]:
+        raise T.TranslateError(f"perform_compile: the try body is not root loop / retried / re-solve loop / final check: {kinds}")
+    if ast.unparse(tb[1].target) != "retried" or ast.unparse(tb[1].value) != "set()":
+        raise T.TranslateError("perform_compile: `retried` is not initialised with set()")
+    wl = tb[2]
+    want_pending = "pending = [node for node in sorted(results.visit_nodes(roots)) if node.metadata is None and node not in retried]"
+    if not (ast.unparse(wl.test) == "True" and len(wl.body) == 4 and ast.unparse(wl.body[0]) == want_pending
+            and ast.unparse(wl.body[1]) == "if not pending:\n    break" and ast.unparse(wl.body[2]) == "retried.add(pending[0])"
+            and isinstance(wl.body[3], ast.Expr) and isinstance(wl.body[3].value, ast.Call) and not wl.orelse):
+        raise T.TranslateError("perform_compile: unrecognised shape of the re-solve loop")
+    call = wl.body[3].value
+    if ast.unparse(call.func) != "compile_roots" or [ast.unparse(a_) for a_ in call.args] != ["pending[0]", "None", "repo", "results", "options"]:
+        raise T.TranslateError("perform_compile: unexpected re-solve call")
+    kw = {k.arg: k.value for k in call.keywords}
+    if set(kw) != {"max_downgrade"} or not (isinstance(kw["max_downgrade"], ast.Constant) and isinstance(kw["max_downgrade"].value, int)):
+        raise T.TranslateError("perform_compile: the re-solve call must pass a literal max_downgrade and nothing else")
+    budget = kw["max_downgrade"].value
+    fl = tb[3]
+    if not (ast.unparse(fl.iter) == "sorted(results.visit_nodes(roots))" and len(fl.body) == 1 and isinstance(fl.body[0], ast.If)
+            and ast.unparse(fl.body[0].test) == "node.metadata is None" and not fl.body[0].orelse and len(fl.body[0].body) == 1
+            and isinstance(fl.body[0].body[0], ast.Raise)
+            and ast.unparse(fl.body[0].body[0].exc) == "NoCandidateException(node.build_constraints())"):
+        raise T.TranslateError("perform_compile: the final check does not raise NoCandidateException(node.build_constraints()) for an unsolved required node")
     body = T.HEADER
+    body += f"Definition resolve_pass_budget : nat := {budget}.\n"
     body += f"Definition walkback_budget_decrement : nat := {decs[0]}.\n"
     body += f"Definition max_compile_depth : nat := {depth}.\n"
     body += f"Definition max_downgrade : nat := {down}.\n"
